@@ -1375,7 +1375,9 @@ func (e *CoreExtension) filterCapitalize(value interface{}, args ...interface{})
 	words := strings.Fields(s)
 	for i, word := range words {
 		if len(word) > 0 {
-			words[i] = strings.ToUpper(word[0:1]) + strings.ToLower(word[1:])
+			// upper-case the first character (which may be several bytes long)
+			r, size := utf8.DecodeRuneInString(word)
+			words[i] = strings.ToUpper(string(r)) + strings.ToLower(word[size:])
 		}
 	}
 
@@ -1392,7 +1394,9 @@ func (e *CoreExtension) filterTitle(value interface{}, args ...interface{}) (int
 	words := strings.Fields(s)
 	for i, word := range words {
 		if len(word) > 0 {
-			words[i] = strings.ToUpper(word[0:1]) + strings.ToLower(word[1:])
+			// upper-case the first character (which may be several bytes long)
+			r, size := utf8.DecodeRuneInString(word)
+			words[i] = strings.ToUpper(string(r)) + strings.ToLower(word[size:])
 		}
 	}
 
